@@ -85,7 +85,7 @@ class G:
         if r < 0.55: return '<text:h text:outline-level="%d">%s</text:h>' % (level or self.rng.randint(1, 10), self.inline())
         if r < 0.7:
             items = ''.join('<text:list-item>%s</text:list-item>' % (self.para() + (self.sublist(depth + 1) if self.rng.random() < 0.3 else '')) for _ in range(self.rng.randint(1, 3)))
-            return '<text:list text:style-name="L1">%s</text:list>' % items
+            return '<text:list%s>%s</text:list>' % (self.rng.choice([' text:style-name="L1"', ' text:style-name="WW8Num1.1"', ' text:style-name="WW8Num1.1"', '']), items)
         if r < 0.85:
             def cell():
                 c = self.para()
@@ -128,7 +128,8 @@ def make_doc(rng, kind='text', i=0):
     autos = ('<style:style style:name="P1" style:family="paragraph"><style:paragraph-properties fo:text-align="center"/><style:text-properties fo:font-family="%s"/></style:style>'
              '<style:style style:name="P&amp;2" style:family="paragraph"/><style:style style:name="T1" style:family="text"><style:text-properties fo:font-weight="bold" fo:font-family="%s"/></style:style>'
              '<style:style style:name="T2" style:family="text"/><style:style style:name="T&lt;3" style:family="text"/>'
-             '<text:list-style style:name="L1"><text:list-level-style-bullet text:level="1" text:bullet-char="•"/></text:list-style>') % (P.xml_attr(fam[0]), P.xml_attr(fam[1]))
+             '<text:list-style style:name="L1"><text:list-level-style-bullet text:level="1" text:bullet-char="•"/></text:list-style>'
+             '<text:list-style style:name="WW8Num1.1"><text:list-level-style-number text:level="1" style:num-format="1"/><text:list-level-style-number text:level="2" style:num-format="a"/></text:list-style>') % (P.xml_attr(fam[0]), P.xml_attr(fam[1]))
     if kind == 'text':
         data = P.simple_package(body, autostyles=autos, meta=meta, extra_members=[('Pictures/p1.png', b'\x89PNG', 'image/png')],
                                 styles='<style:default-style style:family="paragraph"/><style:style style:name="Standard" style:family="paragraph"/>')
